@@ -371,13 +371,14 @@ def _child(root: str, case: dict[str, Any]) -> dict[str, Any]:
         records = ipsref.parse(data_out or b"")
     except ipsref.IpsFormatError as e:
         sig = e.klass
-        # locate: does the failure come from a record whose offset field reads 'EOF'?
-        for a, data in blocks:
-            s = a + shift
-            if len(data) and s <= EOFO < s + len(data) and (EOFO - s) % 65535 == 0:
-                sig = "record_offset_reads_as_EOF"
         if refused_idx:
             sig = "after_refusal:" + e.klass
+        # locate: does the failure come from a record whose offset field reads 'EOF'?  (takes precedence:
+        # a history that contains such an accepted block fails for that reason whatever else it contains)
+        for j, (a, data) in enumerate(blocks):
+            s = a + shift
+            if j not in refused_idx and len(data) and s <= EOFO < s + len(data) and (EOFO - s) % 65535 == 0:
+                sig = "record_offset_reads_as_EOF"
         verdicts.append(("malformed_file", sig, f"produced file is not a well-formed IPS patch{' (after a refused block the caller went on)' if refused_idx else ''}: {e} (klass {e.klass})"))
         return res
     res["n_records"] = len(records)
@@ -404,7 +405,12 @@ def _child(root: str, case: dict[str, Any]) -> dict[str, Any]:
         res["n_records"] = len(records)
         if not matched:
             accepted = ipsref.image_of_blocks([(a, b"" if j in refused_idx else d) for j, (a, d) in enumerate(blocks)], shift)
-            verdicts.append(("image_mismatch", "after_refusal", "some blocks were refused and the caller went on; the patched image (first) is neither the accepted blocks alone (second) nor those plus a whole-record prefix of the refused ones: " + "; ".join(got.diff(accepted))))
+            sig = "after_refusal"
+            for j, (a, data) in enumerate(blocks):
+                s = a + shift
+                if j not in refused_idx and len(data) and s <= EOFO < s + len(data) and (EOFO - s) % 65535 == 0:
+                    sig = "record_offset_reads_as_EOF"
+            verdicts.append(("image_mismatch", sig, "some blocks were refused and the caller went on; the patched image (first) is neither the accepted blocks alone (second) nor those plus a whole-record prefix of the refused ones: " + "; ".join(got.diff(accepted))))
         return res
     if got != want:
         d = got.diff(want)
